@@ -1,2 +1,135 @@
 pub use super::bw_estimation::verif as bw_estimation;
 pub use super::min_max::verif as min_max;
+
+/// Bbr with arbitrary window bookkeeping (bandwidth filters empty).
+fn mk_bbr(initial_window: u64, mtu: u16, mode: u8, rec: u8, cwnd: u64, recovery_window: u64) -> Bbr {
+    let current_mtu = mtu as u64;
+    Bbr {
+        config: Arc::new(BbrConfig { initial_window }),
+        current_mtu,
+        max_bandwidth: BandwidthEstimation::default(),
+        acked_bytes: 0,
+        mode: match mode { 0 => Mode::Startup, 1 => Mode::Drain, _ => Mode::ProbeBw },
+        loss_state: Default::default(),
+        recovery_state: match rec { 0 => RecoveryState::NotInRecovery, 1 => RecoveryState::Conservation, _ => RecoveryState::Growth },
+        recovery_window,
+        is_at_full_bandwidth: mode != 0,
+        pacing_gain: K_DEFAULT_HIGH_GAIN,
+        high_gain: K_DEFAULT_HIGH_GAIN,
+        drain_gain: 1.0 / K_DEFAULT_HIGH_GAIN,
+        cwnd_gain: K_DEFAULT_HIGH_GAIN,
+        high_cwnd_gain: K_DEFAULT_HIGH_GAIN,
+        last_cycle_start: None,
+        current_cycle_offset: 0,
+        init_cwnd: initial_window.max(calculate_min_window(current_mtu)),
+        min_cwnd: calculate_min_window(current_mtu),
+        prev_in_flight_count: 0,
+        exit_probe_rtt_at: None,
+        probe_rtt_last_started_at: None,
+        min_rtt: Default::default(),
+        exiting_quiescence: false,
+        pacing_rate: 0,
+        max_acked_packet_number: 0,
+        max_sent_packet_number: 0,
+        end_recovery_at_packet_number: 0,
+        cwnd,
+        current_round_trip_end_packet_number: 0,
+        round_count: 0,
+        bw_at_last_round: 0,
+        round_wo_bw_gain: 0,
+        ack_aggregation: AckAggregationState::default(),
+        random_number_generator: Pcg32::new(1, 1),
+    }
+}
+
+/// Invariant of Bbr between controller calls: cwnd >= min_cwnd = 4 * mtu, and while in recovery
+/// the recovery window has been initialised (>= min_cwnd) by the same `on_end_acks` that entered it.
+fn bbr_inv(mtu: u16, rec: u8, cwnd: u64, recovery_window: u64) -> bool {
+    mtu >= 1200 && cwnd >= 4 * mtu as u64 && (rec == 0 || recovery_window >= 4 * mtu as u64)
+}
+
+/// C12.a: Bbr window lower bound across an MTU update and a recovery-window recalculation, from
+/// any state (modes Startup / Drain / ProbeBw) satisfying the invariant.
+/// op 0: on_mtu_update(new_mtu)   op 1: calculate_recovery_window(acked, lost, in_flight)
+pub fn window_step(initial_window: u64, mtu: u16, mode: u8, rec: u8, cwnd: u64, recovery_window: u64, op: u8, new_mtu: u16, acked: u32, lost: u32, in_flight: u32) -> u32 {
+    if !bbr_inv(mtu, rec, cwnd, recovery_window) || cwnd >= 1 << 62 || recovery_window >= 1 << 62 || mode > 2 || rec > 2 || op > 1 || new_mtu < 1200 || initial_window >= 1 << 62 {
+        return 0;
+    }
+    let mut b = mk_bbr(initial_window, mtu, mode, rec, cwnd, recovery_window);
+    assert!(b.window() >= 2 * b.current_mtu);
+    let f;
+    if op == 0 {
+        b.on_mtu_update(new_mtu);
+        assert!(b.current_mtu == new_mtu as u64 && b.min_cwnd == 4 * new_mtu as u64);
+        assert!(b.cwnd >= b.min_cwnd);
+        f = 1 | (if rec != 0 && mode != 0 { 4 } else { 0 });
+    } else {
+        b.calculate_recovery_window(acked as u64, lost as u64, in_flight as u64);
+        if rec != 0 {
+            assert!(b.recovery_window >= b.min_cwnd);
+            assert!(b.recovery_window >= in_flight as u64 + acked as u64);
+        } else {
+            assert!(b.recovery_window == recovery_window);
+        }
+        f = 2;
+    }
+    // the property: never report less than two datagrams
+    assert!(b.window() >= 2 * b.current_mtu);
+    // and the invariant is re-established for the next call
+    assert!(bbr_inv(b.current_mtu as u16, rec, b.cwnd, b.recovery_window));
+    core::mem::forget(b);
+    f
+}
+
+/// C12 history demonstration through the `Controller` trait only (native replay; `Bbr::new` uses
+/// the thread-local RNG, which Kani cannot compile): start a transfer, lose a packet while still
+/// in Startup, finish the round without bandwidth growth so that Bbr leaves Startup while in
+/// recovery, then let MTU discovery confirm a much larger MTU.  Returns
+/// (window reported, 2 * mtu) right after `on_mtu_update`.
+pub fn history_recovery_then_mtu_update(new_mtu: u16) -> (u64, u64, bool) {
+    let t0 = crate::verif::mk_instant(10, 0).unwrap();
+    let ms = |n: u64| t0 + Duration::from_millis(n);
+    let mut b = Bbr::new(Arc::new(BbrConfig::default()), 1200);
+    let c: &mut dyn Controller = &mut b;
+    let rtt = RttEstimator::new(Duration::from_millis(50));
+    let mut pn = 0u64;
+    let mut acked = 0u64;
+    let mut now_ms = 0u64;
+    // a few lossless rounds
+    for _ in 0..3 {
+        for _ in 0..10 {
+            c.on_sent(ms(now_ms), 1200, pn);
+            pn += 1;
+            now_ms += 1;
+        }
+        now_ms += 50;
+        for _ in 0..10 {
+            c.on_ack(ms(now_ms), ms(now_ms - 50), 1200, false, &rtt);
+            now_ms += 1;
+        }
+        acked = pn - 1;
+        c.on_end_acks(ms(now_ms), 0, false, Some(acked));
+    }
+    // rounds with a loss each and no bandwidth growth
+    for _ in 0..4 {
+        for _ in 0..10 {
+            c.on_sent(ms(now_ms), 1200, pn);
+            pn += 1;
+            now_ms += 1;
+        }
+        now_ms += 50;
+        // heavy loss: nine of ten packets lost, one acknowledged, nothing left in flight
+        c.on_congestion_event(ms(now_ms), ms(now_ms - 50), false, false, 9 * 1200);
+        c.on_ack(ms(now_ms), ms(now_ms - 50), 1200, false, &rtt);
+        now_ms += 1;
+        acked = pn - 1;
+        c.on_end_acks(ms(now_ms), 0, false, Some(acked));
+    }
+    let _ = acked;
+    let before_ok = c.window() >= 2 * 1200;
+    c.on_mtu_update(new_mtu);
+    let w = c.window();
+    let limited_by_recovery = b.recovery_state.in_recovery() && b.mode != Mode::Startup && b.mode != Mode::ProbeRtt;
+    assert!(before_ok);
+    (w, 2 * new_mtu as u64, limited_by_recovery)
+}
